@@ -197,6 +197,9 @@ def run_foundation(ctx: Ctx, nn: str, skip: tuple[str, ...] = (), only: tuple[st
             with open(tmp, "w", encoding="utf-8") as f:
                 json.dump(data, f, default=str)
             os.replace(tmp, path)
+            entries = sorted((os.path.getmtime(os.path.join(CACHE_DIR, f)), f) for f in os.listdir(CACHE_DIR) if f.endswith(".json"))
+            for _mt, f in entries[:-600]:
+                os.unlink(os.path.join(CACHE_DIR, f))
         except OSError:
             pass
     rules, violations, funcs, paths = _from_json(data)
